@@ -564,6 +564,27 @@ func (e *bitEnv) exec(stmts []ast.Stmt) ([]bval, bool) {
 					e.flds[core.ExprStr(sel)] = &v
 					continue
 				}
+				// *recv = T{F: a, G: b}: every named field is stored
+				if st, ok := l.(*ast.StarExpr); ok {
+					if cl, isLit := core.Unparen(s.Rhs[i]).(*ast.CompositeLit); isLit {
+						keyed := len(cl.Elts) > 0
+						for _, el := range cl.Elts {
+							if _, isKV := el.(*ast.KeyValueExpr); !isKV {
+								keyed = false
+							}
+						}
+						if keyed {
+							for _, el := range cl.Elts {
+								kv := el.(*ast.KeyValueExpr)
+								if id, isId := kv.Key.(*ast.Ident); isId {
+									v := e.eval(kv.Value)
+									e.flds[core.ExprStr(st.X)+"."+id.Name] = &v
+								}
+							}
+							continue
+						}
+					}
+				}
 				e.fail("assignment to %s not understood", core.ExprStr(l))
 			}
 		case *ast.DeclStmt:
